@@ -108,7 +108,16 @@ def check_fold(ctx, cls, fn, spec):
     # what is returned is the winner's representative
     r = rets[0]
     bv = norm_src(f.best_value)
-    okr = (norm_src(r.value) == "%s.get_cpoint()" % f.best and bv == f.cand) or (norm_src(r.value) == f.best and bv == "%s.get_cpoint()" % f.cand)
+    rv = r.value
+    if isinstance(rv, ast.IfExp):
+        # `None if best is None else best.get_cpoint()` (either orientation): the empty-candidate case spelled out
+        t = norm_src(rv.test)
+        if t == "%s is None" % f.best and norm_src(rv.body) == "None":
+            rv = rv.orelse
+        elif t == "%s is not None" % f.best and norm_src(rv.orelse) == "None":
+            rv = rv.body
+    okr = (norm_src(rv) in ("%s.get_cpoint()" % f.winner, "%s.get_cpoint()" % f.best) and bv in (f.cand, f.elem)) or \
+        (norm_src(rv) == f.best and bv in ("%s.get_cpoint()" % f.cand, "%s.get_cpoint()" % f.elem))
     ctx.ob("R07-ARGMAX", okr, cls.file, qual, norm_src(r), "returns the representative of the winner" if okr else
            "the returned value is not the winner's representative (winner stored as %s = %s)" % (f.best, bv), r.lineno)
     return f
